@@ -125,7 +125,7 @@ theorem hubEndSide_eq : Gen.Packets.hubEndSide = modelSide := by funext t; cases
 theorem releaseEffect_eq (s : St) (p : Packet) :
     releaseEffect s p = (match Gen.Packets.finalizeCallback p.ptype with
       | some .recvAndAck => writeRecvAck (recvRelease s p).1 p (recvRelease s p).2
-      | some .ack => if p.ackErr then refundRelease s p else (s, none)
+      | some .ack => if p.ackErr then refundRelease s p else ackRelease s p
       | some .timeout => refundRelease s p
       | none => (s, none)) := by
   unfold releaseEffect
